@@ -54,11 +54,22 @@ def _short(first4, addr=0):
 # address overlaid on the parity) arrive as 7 bytes from Beast feeds and as 14-byte buffers (message + 7
 # zero bytes) from the rtlsdr source (ModeSMessage.msg is [u8; 14]); the decoder reads the length from the
 # DF field, so all of them are decodable receptions.  They replace five of the DF17 frames of the pool.
-GOOD[2] = _short("5d4b1a2c") + "00" * 7
-GOOD[11] = _short("5d3c6589")
+GOOD[2] = _short("5d3c6589") + "00" * 7       # the SAME reply as GOOD[11], in the other buffer form:
+GOOD[11] = _short("5d3c6589")                  # two different receptions' byte strings, hence two frames
 GOOD[12] = _short("20000d38", 0x4B1A2C)
 GOOD[13] = _short("20000d38", 0x3C6589) + "00" * 7
 GOOD[14] = _short("28001b98", 0x4840D6)
+
+
+# the short histories use frames {0, 1}: in their ":padpair" variants these two are one 7-byte reply
+# and the same reply in a zero-padded 14-byte buffer (different byte strings: different frames)
+PADPAIR = {0: _short("20000d38", 0x4B1A2C), 1: _short("20000d38", 0x4B1A2C) + "00" * 7}
+
+
+def fhex(sc, f):
+    if sc.get("padpair") and f in PADPAIR:
+        return PADPAIR[f]
+    return frame_hex(f)
 
 
 def frame_hex(idx):
@@ -156,7 +167,7 @@ def request_of(sc):
     arrivals = []
     for idx in parts_of(sc):
         f, t, _rx = sc["arr"][idx[0]]
-        a = {"ts": ts_of(sc["epoch"], t), "frame": frame_hex(f), "id": (idx[0] + 1) * 16 + sc["arr"][idx[0]][2]}
+        a = {"ts": ts_of(sc["epoch"], t), "frame": fhex(sc, f), "id": (idx[0] + 1) * 16 + sc["arr"][idx[0]][2]}
         if len(idx) > 1:
             a["ids"] = [(i + 1) * 16 + sc["arr"][i][2] for i in idx]
         arrivals.append(a)
@@ -177,7 +188,7 @@ def convert_record(rec, hex2idx, ts2tick):
 
 def events_of(sc, reply):
     """Scenario + driver reply -> trace events (reset, arrive.., close)."""
-    hex2idx = {frame_hex(f): f for (f, _, _) in sc["arr"]}
+    hex2idx = {fhex(sc, f): f for (f, _, _) in sc["arr"]}
     ts2tick = {ts_of(sc["epoch"], t): t for (_, t, _) in sc["arr"]}
     evs = [{"e": "reset", "w": sc["w"]}]
     if sc.get("tool") == "decode1090":      # one run of the tool over the whole history
@@ -704,6 +715,7 @@ def check(run):
         # a seeded sample of the short ones
         mrng = random.Random(run.seed + 77)
         mstats = Stats()
+        pstats = Stats()
 
         def special_multi(rp):
             process(run, [multify(sc, mrng) for sc in special], procs, mstats, "multi.special")
@@ -744,6 +756,11 @@ def check(run):
                     pick = [multify(sc, mrng) for sc in batch if mrng.random() < (0.25 if thorough else 0.06)]
                     if pick:
                         process(run, pick, procs, mstats, f"multi.{c}.{b0 // BATCH}")
+                    # the same reply in both buffer forms (7 bytes / 14 zero-padded bytes) inside one history
+                    pick = [dict(sc, padpair=True, tag=sc["tag"] + ":padpair") for sc in batch
+                            if {0, 1} <= {a[0] for a in sc["arr"]} and mrng.random() < (0.25 if thorough else 0.08)]
+                    if pick:
+                        process(run, pick, procs, pstats, f"padpair.{c}.{b0 // BATCH}")
 
                 rp = process(run, batch, procs, stats, f"{c}.{b0 // BATCH}", meanwhile=[side, tool_side, multi_side])
                 if b0 == 0:
@@ -784,6 +801,11 @@ def check(run):
             "what": "variants of the long / attack histories and of a seeded sample of the short ones in which arrivals carry "
                     "1-3 receptions (one SensorMetadata each, as the SeRo source hands over); judged by Trace_Dedup!MultiEv "
                     "(Dedup!InsertMulti ; Pop*) and by the declarative properties at close"},
+        "same_reply_in_both_buffer_forms": {
+            "scenarios": pstats.n, "records_emitted_by_code": pstats.records, "rejected": pstats.rejected,
+            "what": "a seeded sample of the short histories replayed with frames 0 / 1 = one 7-byte reply and the same reply in "
+                    "a zero-padded 14-byte buffer (the rtlsdr source's form): different byte strings are different frames; "
+                    "the long histories contain such a pair as well (frames 2 and 11)"},
         "back_pressure": bp,
         "queued_bursts": qb,
         "decode1090": dict(d10, reading="decode1090 (its own copy of the loop, crates/decode1090/src/main.rs) reads a finite "
